@@ -313,9 +313,9 @@ theorem collect_eq_plainBelow (V : St → List Val) (s : St) (hl : (V s).length 
   rfl
 
 /-- the run of 031031 is over and the next member makes the walk build the selection -/
-theorem Core.build {P : Prims} {V : St → List Val} (hR : Rec P V) {s sb : St} {cs : List Nat} (hc : Core V s cs)
+theorem Core.build {P : Prims} {V : St → List Val} {X : St → Prop} (hR : Rec P V X) {s sb : St} {cs : List Nat} (hc : Core V s cs)
     (hcnt : s.regs.bitmapDef = .counting) (bm : List Val) (hbm : P.lastValues s.regs.n031031 s = .ok bm)
-    (hb : buildBitmapped s bm = .ok sb) :
+    (hb : buildBitmapped s bm = .ok sb) (hx : X s) :
     Core V (sb.setRegs fun r => { r with bitmapDef := .na }) cs := by
   have hp := hc.phase
   unfold PhaseRel at hp
@@ -325,7 +325,7 @@ theorem Core.build {P : Prims} {V : St → List Val} (hR : Rec P V) {s sb : St} 
   have hkl : bits.length ≤ (V s).length := slastN_length_le _ _ (by rw [hlast])
   have hbits : bm = bits := by
     rw [hn] at hbm
-    rw [hR.lastValues _ _ _ hbm hk hkl, hlast]
+    rw [hR.lastValues _ _ _ hbm hk hkl hx, hlast]
   subst hbits
   have hs := hc.sinv
   have hbb : s.regs.backBoundary < s.descs.length := by
